@@ -242,7 +242,24 @@ func formatGenDecl(ctx *formatCtx, v *ast.GenDecl) {
 
 func formatFuncDecl(ctx *formatCtx, v *ast.FuncDecl) {
 	formatFuncType(ctx, v.Type)
-	formatBlockStmt(ctx, v.Body)
+	formatFuncBody(ctx, v.Recv, v.Type, v.Body)
+}
+
+// formatFuncBody formats a function body in a scope that declares the receiver,
+// the parameters and the named results.
+func formatFuncBody(ctx *formatCtx, recv *ast.FieldList, typ *ast.FuncType, body *ast.BlockStmt) {
+	old := ctx.enterBlock()
+	defer ctx.leaveBlock(old)
+	for _, flds := range []*ast.FieldList{recv, typ.Params, typ.Results} {
+		if flds != nil {
+			for _, fld := range flds.List {
+				for _, name := range fld.Names {
+					ctx.insert(name.Name)
+				}
+			}
+		}
+	}
+	formatBlockStmt(ctx, body)
 }
 
 /*
